@@ -67,6 +67,11 @@ def Core.liftLast : Core R → Core R
   | .tt r0 s r1 f => .tt r0 s r1 f
   | .cp s r f => .tt r s 1 (fun a j _ => f j a)
 
+/-- `core.sum(dim=-1, keepdim=True)[None]` for a CP factor: the 1 × I × 1 core of a 1-D CP tensor -/
+def Core.sumCols : Core R → Core R
+  | .tt r0 s r1 f => .tt r0 s r1 f
+  | .cp s r f => .tt 1 s 1 (fun _ j _ => sumTo r fun k => f j k)
+
 /-- whole-tensor `_cp_to_tt()` on a list of cores (no factors involved) -/
 def cpToTTAll : Tensor R → Tensor R
   | [] => []
@@ -77,7 +82,7 @@ def cpToTTAll : Tensor R → Tensor R
       | [l] => [{ l with core := l.core.liftLast }]
       | x :: xs => { x with core := x.core.toTT } :: go xs
     match ms with
-    | [] => [first]            -- N = 1: the (already lifted) core is not touched again
+    | [] => [{ m with core := m.core.sumCols }]   -- N = 1: a 1-D CP tensor is the sum of its columns
     | _ => first :: go ms
 
 /-- `Tensor.tt()` -/
